@@ -940,12 +940,25 @@ impl Scenario for Conc {
                     let r = catch(|| {
                         let mut held: Vec<(GuestMemoryLoadGuard<Map>, Vec<(u64, u64, u8)>, u64)> = Vec::new();
                         let mut inner: Vec<(Arc<Map>, Vec<(u64, u64, u8)>, u64)> = Vec::new();
+                        let mut extra: Vec<GuestMemoryAtomic<Map>> = Vec::new();
                         for &op in prog {
                             match op {
                                 0 | 1 | 2 => {
                                     let t0 = cx().events.len();
                                     cx().op_begin(ai as u64);
-                                    let g = handle.memory();
+                                    // through the actor's handle, through a clone of it made right now, or
+                                    // through a clone made earlier
+                                    let g = match cx().b(4) {
+                                        0 => {
+                                            cx().count("probe.snapshot_through_a_handle_cloned_during_the_run");
+                                            let h2 = handle.clone();
+                                            let g = h2.memory();
+                                            extra.push(h2);
+                                            g
+                                        }
+                                        1 if !extra.is_empty() => extra[extra.len() - 1].memory(),
+                                        _ => handle.memory(),
+                                    };
                                     cx().op_end(ai as u64, 0);
                                     let t1 = cx().events.len();
                                     let (list, gen) = observe(&g);
